@@ -97,6 +97,13 @@ class KB:
     def emit(s, code):
         s.lines.append(code)
 
+    def stub_draws(s, name):
+        """the stubs draw nondeterministic values too: keep the playback decoding aligned"""
+        n = (1 if (s.stub_sqrt and name in ('SD', 'BB')) else 0) + (1 if (s.stub_ema and name in ('CE', 'SLOW_STOCH')) else 0)
+        for _ in range(n):
+            s.k += 1
+            s.draws.append(('f64', '_stub%d' % s.k))
+
     def _v(s):
         s.k += 1
         return 'v%d' % s.k
@@ -349,6 +356,7 @@ class KOps:
         s.tables = {}
 
     def new(s, slot, name, periods=(), mult='2.5'):
+        s.names = getattr(s, 'names', {}); s.names[slot] = name
         s.b.emit('let mut %s = %s;' % (slot, ctor(name, periods, mult)))
         s.ops.append(('new', slot, name, tuple(periods), float(mult) if IND[name]['mult'] else None))
         s.outs.append(None)
@@ -382,12 +390,14 @@ class KOps:
             s.b.emit('let %s = %s.next(&B { o: %s, h: %s, l: %s, c: %s, v: %s }).ob();' % ((ov, slot) + tuple(vs)))
             s.ops.append(('feed', slot, tuple(ds)))
         s.outs.append(ov)
+        s.b.stub_draws(getattr(s, 'names', {}).get(slot, ''))
         return ov
 
     def reset(s, slot):
         s.b.emit('%s.reset();' % slot); s.ops.append(('reset', slot)); s.outs.append(None)
 
     def clone(s, src, dst):
+        s.names = getattr(s, 'names', {}); s.names[dst] = s.names.get(src, '')
         s.b.emit('let mut %s = %s.clone();' % (dst, src)); s.ops.append(('clone', src, dst)); s.outs.append(None)
 
     def serde(s, src, dst, name):
